@@ -111,6 +111,7 @@ def newick_body(rng, taxa, leaves, opt):
     pc = opt.get("p_comment", 0.0)
     pw = opt.get("p_ws", 0.1)
     counter = [0]
+    edge_no = [0]
 
     def com():
         if rng.random() < pc:
@@ -152,6 +153,10 @@ def newick_body(rng, taxa, leaves, opt):
             ln = "1"
         if ln is not None:
             s += ws(rng, pw, nl) + ":" + ws(rng, pw, nl) + com() + ln + com()
+        if opt.get("jplace") and not (is_root and opt.get("no_final_semicolon")) and rng.random() < 0.8:
+            # .jplace edge number (only written when is_parse_jplace_tokens=True is among the options)
+            s += "{%d}" % edge_no[0]
+            edge_no[0] += 1
         return s
     return rec(spec, True), spec
 
@@ -235,7 +240,7 @@ def newick_doc(rng, hostile=True, nl="\n", force=None):
         out.append(stmt + term + sep)
     if n_trees > 1:
         feats.add("multi-statement")
-    for k in ("weights", "tree_comments", "alias"):
+    for k in ("weights", "tree_comments", "alias", "jplace"):
         if topt.get(k):
             feats.add(k)
     if topt["rooting_tokens"] != "none":
@@ -320,7 +325,44 @@ def chars_block(rng, taxa, order, nl, title=None, link=None, data_block=False, a
     return s, dt, nchar, feats
 
 
-def nexus_doc(rng, hostile=True, nl="\n", force=None, with_chars=False, allow_multistate=True):
+TAXA_TITLES = ("taxa1", "'My Taxa'", "Second_set", "'taxa three'", "OTUs.b")
+
+
+def taxa_groups(rng, n_taxa, hostile, have_taxa_block, allow_multi):
+    """TAXA blocks of a NEXUS document: [{"title": token or None, "ids": taxon indices, "order": order of TAXLABELS}].
+    Usually one block over all taxa.  Mesquite-style documents carry two or three TITLEd blocks whose label sets are
+    disjoint, overlapping or identical; every TREES / CHARACTERS block is then LINKed to one of them."""
+    ids = list(range(n_taxa))
+    if not (have_taxa_block and allow_multi and hostile and n_taxa >= 4 and rng.random() < 0.16):
+        order = ids[:]
+        rng.shuffle(order)
+        title = rng.choice([None, None, "taxa1", "'My Taxa'"]) if have_taxa_block else None
+        return [{"title": title, "ids": ids, "order": order}], None
+    k = rng.choice([2, 2, 3])
+    relation = rng.choice(["disjoint", "overlapping", "identical"])
+    if relation == "disjoint" and n_taxa < 2 * k:
+        k = 2
+    titles = rng.sample(TAXA_TITLES, k)
+    groups = []
+    pool = ids[:]
+    rng.shuffle(pool)
+    for g in range(k):
+        if relation == "identical":
+            mine = ids[:]
+        elif relation == "disjoint":
+            size = len(pool) // k
+            mine = pool[g * size:(g + 1) * size] if g < k - 1 else pool[g * size:]
+        else:
+            mine = rng.sample(ids, rng.randint(2, n_taxa - 1))
+            if g and not set(mine) & set(groups[0]["ids"]):
+                mine[0] = groups[0]["ids"][0]
+        order = mine[:]
+        rng.shuffle(order)
+        groups.append({"title": titles[g], "ids": sorted(mine), "order": order})
+    return groups, relation
+
+
+def nexus_doc(rng, hostile=True, nl="\n", force=None, with_chars=False, allow_multistate=True, allow_multi_taxa=True):
     n_taxa = rng.choice([2, 3, 4, 5, 6, 8]) if hostile else rng.choice([3, 4, 5])
     taxa = Taxa(rng, n_taxa, hostile)
     feats = set()
@@ -336,24 +378,36 @@ def nexus_doc(rng, hostile=True, nl="\n", force=None, with_chars=False, allow_mu
         # without a TAXA block the first spelling seen defines a taxon's label, and a matrix read skips the TREES
         # blocks while a tree read skips the matrix: alternative spellings would differ legitimately
         topt["alias"] = False
-    taxa_title = rng.choice([None, None, "taxa1", "'My Taxa'"]) if have_taxa_block else None
-    order = list(range(n_taxa))
-    rng.shuffle(order)
+    groups, relation = taxa_groups(rng, n_taxa, hostile, have_taxa_block, allow_multi_taxa and not topt.get("taxa_internal"))
+    multi = len(groups) > 1
+    if multi:
+        feats.add("taxa-blocks-%d" % len(groups))
+        feats.add("taxa-sets-" + relation)
     out = ["#NEXUS" + nl]
     if hostile and rng.random() < 0.4:
         out.append(rng.choice(["[file comment]", "[!a visible comment]", "[&file=meta]"]) + nl)
         feats.add("file-comment")
+
+    def taxa_block(g):
+        s = "%s %s;%s" % (kw(rng, "BEGIN"), kw(rng, "TAXA"), nl)
+        if g["title"]:
+            s += "  TITLE %s;%s" % (g["title"], nl)
+            feats.add("taxa-title")
+        s += "  DIMENSIONS NTAX=%d;%s" % (len(g["ids"]), nl)
+        s += "  TAXLABELS" + nl + "".join("    %s%s%s" % (taxa.token(i), " [taxon comment]" if hostile and rng.random() < 0.1 else "", nl)
+                                          for i in g["order"]) + "  ;" + nl
+        s += "%s;%s" % (kw(rng, "END"), nl)
+        return s
     if have_taxa_block:
         feats.add("taxa-block")
-        s = "%s %s;%s" % (kw(rng, "BEGIN"), kw(rng, "TAXA"), nl)
-        if taxa_title:
-            s += "  TITLE %s;%s" % (taxa_title, nl)
-            feats.add("taxa-title")
-        s += "  DIMENSIONS NTAX=%d;%s" % (n_taxa, nl)
-        s += "  TAXLABELS" + nl + "".join("    %s%s%s" % (taxa.token(i), " [taxon comment]" if hostile and rng.random() < 0.1 else "", nl)
-                                          for i in order) + "  ;" + nl
-        s += "%s;%s" % (kw(rng, "END"), nl)
-        out.append(s)
+        for g in groups:
+            out.append(taxa_block(g))
+
+    def link_of(g):
+        """LINK TAXA statement of a block that uses the taxa of g: mandatory with several TAXA blocks"""
+        if g["title"] and (multi or rng.random() < 0.7):
+            return g["title"]
+        return None
     matrices = []
     n_char_blocks = 0
     if with_chars:
@@ -364,8 +418,8 @@ def nexus_doc(rng, hostile=True, nl="\n", force=None, with_chars=False, allow_mu
         title = None
         if n_char_blocks > 1 or rng.random() < 0.3:
             title = "chars%d" % len(matrices)
-        link = taxa_title if (taxa_title and rng.random() < 0.7) else None
-        s, dt, nchar, f = chars_block(rng, taxa, order, nl, title=title, link=link, data_block=data_block,
+        g = rng.choice(groups)
+        s, dt, nchar, f = chars_block(rng, taxa, g["order"], nl, title=title, link=link_of(g), data_block=data_block,
                                       allow_multistate=allow_multistate)
         out.append(s)
         matrices.append(dt)
@@ -402,41 +456,62 @@ def nexus_doc(rng, hostile=True, nl="\n", force=None, with_chars=False, allow_mu
             emit_sets()
     n_blocks = rng.choice([1, 1, 2, 2, 3]) if not with_chars else rng.choice([0, 1, 2])
     blocks = []
+
+    def empty_trees_block():
+        """a TREES block without any tree statement: no reader makes a collection of it, so it is not counted in 'blocks'"""
+        g = rng.choice(groups)
+        s = "%s %s;%s" % (kw(rng, "BEGIN"), kw(rng, "TREES"), nl)
+        if rng.random() < 0.3:
+            s += "  TITLE no_trees_here;%s" % nl
+        if multi or (g["title"] and rng.random() < 0.5):
+            s += "  LINK TAXA = %s;%s" % (g["title"], nl)
+        if rng.random() < 0.3:
+            s += "  [nothing here]" + nl
+        s += "%s;%s" % (kw(rng, "END"), nl)
+        out.append(s)
+        feats.add("empty-trees-block")
     for b in range(n_blocks):
         if hostile and rng.random() < 0.25:
             out.append(rng.choice(["[comment between blocks]" + nl,
                                    "BEGIN PAUP;%s  set autoclose=yes;%s  [tree t = (a,b);]%sEND;%s" % (nl, nl, nl, nl),
                                    "begin mrbayes;%s  mcmc ngen=10;%send;%s" % (nl, nl, nl)]))
             feats.add("foreign-block-or-comment")
+        if hostile and rng.random() < 0.06:
+            empty_trees_block()
+        g = rng.choice(groups)
+        g_ids, g_order = g["ids"], g["order"]
         n_trees = rng.choice([1, 2, 3, 4])
         s = "%s %s;%s" % (kw(rng, "BEGIN"), kw(rng, "TREES"), nl)
         if rng.random() < 0.3:
             s += "  TITLE %s;%s" % (rng.choice(["trees%d" % b, "'Tree Block %d'" % b]), nl)
             feats.add("trees-title")
-        if taxa_title and rng.random() < 0.7:
-            s += "  LINK TAXA = %s;%s" % (taxa_title, nl)
+        link = link_of(g)
+        if link:
+            s += "  LINK TAXA = %s;%s" % (link, nl)
         if hostile and rng.random() < 0.3:
             s += "  [comment at start of trees block]" + nl
             feats.add("block-comment")
         # how taxa are written in this block
         modes = ["labels", "translate-numeric", "translate-permuted", "translate-symbolic", "translate-partial"]
-        if have_taxa_block:
+        if have_taxa_block and not multi:
+            # (with several TAXA blocks a taxon NUMBER means "n-th taxon of the linked block" only while every block keeps a
+            # namespace of its own; the routes that - as documented - pool all blocks in one namespace number differently)
             modes += ["numbers", "numbers"]
         mode = rng.choice(modes)
         feats.add("block-" + mode)
         tokens = None
         if mode.startswith("translate"):
-            ids = list(range(n_taxa))
+            ids = list(g_ids)
             if mode == "translate-numeric":
-                tok = dict((i, str(k + 1)) for k, i in enumerate(order))
+                tok = dict((i, str(k + 1)) for k, i in enumerate(g_order))
             elif mode == "translate-permuted":
-                perm = order[:]
+                perm = g_order[:]
                 rng.shuffle(perm)
                 tok = dict((i, str(k + 1)) for k, i in enumerate(perm))
             elif mode == "translate-symbolic":
                 tok = dict((i, rng.choice(["s%d", "S_%d", "'q %d'"]) % i) for i in ids)
             else:
-                keep = set(rng.sample(ids, max(1, n_taxa // 2)))
+                keep = set(rng.sample(ids, max(1, len(ids) // 2)))
                 tok = dict((i, "k%d" % i) for i in ids if i in keep)
             entries = ["    %s %s" % (tok[i], taxa.token(i)) for i in sorted(tok, key=lambda i: (len(tok[i]), tok[i]))]
             if mode == "translate-permuted":
@@ -444,10 +519,10 @@ def nexus_doc(rng, hostile=True, nl="\n", force=None, with_chars=False, allow_mu
             s += "  %s%s%s%s  ;%s" % (kw(rng, "TRANSLATE"), nl, ("," + nl).join(entries), nl, nl)
             tokens = tok
         elif mode == "numbers":
-            tokens = dict((i, str(k + 1)) for k, i in enumerate(order))
+            tokens = dict((i, str(k + 1)) for k, i in enumerate(g_order))
 
         class View(object):
-            n = n_taxa
+            n = len(g_ids)
 
             def token(self, i, rng=None, alias=False):
                 if tokens is not None and i in tokens:
@@ -456,7 +531,8 @@ def nexus_doc(rng, hostile=True, nl="\n", force=None, with_chars=False, allow_mu
         view = View()
         for t in range(n_trees):
             topt["tree_no"] = "%d_%d" % (b, t)
-            body, spec = newick_body(rng, view, pick_leaves(rng, n_taxa), topt)
+            leaves = [g_ids[j] for j in pick_leaves(rng, len(g_ids))]
+            body, spec = newick_body(rng, view, leaves, topt)
             pre = ""
             if hostile and rng.random() < 0.2:
                 pre = rng.choice(["[before tree statement] ", "[&pre=1] "])
@@ -476,6 +552,8 @@ def nexus_doc(rng, hostile=True, nl="\n", force=None, with_chars=False, allow_mu
             chars_left -= 1
             if not chars_left and rng.random() < 0.5:
                 emit_sets()     # SETS right after its CHARACTERS block, i.e. BEFORE the remaining TREES blocks
+    if hostile and blocks and rng.random() < 0.04:
+        empty_trees_block()
     while chars_left:
         add_chars()
         chars_left -= 1
@@ -483,7 +561,7 @@ def nexus_doc(rng, hostile=True, nl="\n", force=None, with_chars=False, allow_mu
         emit_sets()
     if len(blocks) > 1:
         feats.add("multi-trees-block")
-    for k in ("weights", "tree_comments", "alias"):
+    for k in ("weights", "tree_comments", "alias", "jplace"):
         if topt.get(k):
             feats.add(k)
     if topt["rooting_tokens"] != "none":
@@ -492,7 +570,8 @@ def nexus_doc(rng, hostile=True, nl="\n", force=None, with_chars=False, allow_mu
         feats.add("node-comments")
     if topt.get("internal_labels"):
         feats.add("internal-labels")
-    return {"schema": "nexus", "text": "".join(out), "blocks": blocks, "features": sorted(feats), "matrices": matrices}
+    return {"schema": "nexus", "text": "".join(out), "blocks": blocks, "features": sorted(feats), "matrices": matrices,
+            "taxa_blocks": len(groups) if have_taxa_block else 0}
 
 
 # ----------------------------------------------------------------------------------------
@@ -555,6 +634,9 @@ def nexml_doc(rng, hostile=True, nl="\n"):
         s = '  <trees id="%s" otus="%s"%s>%s' % (nid("trees"), oid, ' label="Trees %d"' % b if rng.random() < 0.5 else "", nl)
         s += meta(0.15)
         n_trees = rng.choice([1, 2, 3])
+        if hostile and n_blocks > 1 and rng.random() < 0.07:
+            n_trees = 0          # an empty <trees> element IS a (empty) collection for every route: counted in 'blocks'
+            feats.add("empty-trees-element")
         for t in range(n_trees):
             k = rng.randint(1, len(members))
             leaves = rng.sample(members, k)
@@ -612,6 +694,165 @@ def nexml_doc(rng, hostile=True, nl="\n"):
     return {"schema": "nexml", "text": "".join(out), "blocks": blocks, "features": sorted(feats), "matrices": []}
 
 
+def nexml_chars_doc(rng, hostile=True, nl="\n"):
+    """hand-written NeXML with <characters> elements (nothing here comes from the library's writer): StandardCells
+    with TWO <states> sets whose columns alternate, polymorphic and uncertain state sets, cells in any order;
+    DnaSeqs / DnaCells over the fixed alphabet (ambiguity codes as uncertain sets); ContinuousSeqs / ContinuousCells;
+    <meta> on the characters element, on <char> and on <row>; one or two <otus>; <trees> before or after."""
+    ids = [0]
+
+    def nid(p):
+        ids[0] += 1
+        return "%s%d" % (p, ids[0])
+
+    def meta(p, indent="      "):
+        if hostile and rng.random() < p:
+            return "".join(indent + rng.choice(META) % nid("m") + nl for _ in range(rng.randint(1, 2)))
+        return ""
+    feats = set(["chars-hand-written"])
+    out = ['<?xml version="1.0" encoding="UTF-8"?>' + nl,
+           '<nex:nexml version="0.9" xmlns="http://www.nexml.org/2009" xmlns:nex="http://www.nexml.org/2009" '
+           'xmlns:xsi="http://www.w3.org/2001/XMLSchema-instance" xmlns:xsd="http://www.w3.org/2001/XMLSchema#" '
+           'xmlns:dc="http://purl.org/dc/elements/1.1/" xmlns:dendropy="http://pypi.org/project/DendroPy/">' + nl]
+    otus = []
+    for b in range(rng.choice([1, 1, 2]) if hostile else 1):
+        oid = nid("otus")
+        n = rng.choice([2, 3, 4, 5])
+        members = []
+        s = '  <otus id="%s">%s' % (oid, nl)
+        for i in range(n):
+            tid = nid("t")
+            s += '    <otu id="%s" label="%s"/>%s' % (tid, rng.choice(["tx%d", "Gen sp%d", "Gen_sp%d"]) % i if hostile else "tx%d" % i, nl)
+            members.append(tid)
+        s += "  </otus>" + nl
+        out.append(s)
+        otus.append((oid, members))
+    if len(otus) > 1:
+        feats.add("multi-otus")
+    body = []
+    matrices = []
+
+    def characters():
+        oid, members = rng.choice(otus)
+        kind = rng.choice(["standard-cells", "standard-cells", "dna-seqs", "dna-cells", "continuous-seqs", "continuous-cells"])
+        feats.add("chars-" + kind)
+        nchar = rng.randint(2, 6)
+        xtype = {"standard-cells": "StandardCells", "dna-seqs": "DnaSeqs", "dna-cells": "DnaCells",
+                 "continuous-seqs": "ContinuousSeqs", "continuous-cells": "ContinuousCells"}[kind]
+        lab = rng.choice(["", ' label="matrix %d"' % len(matrices)])
+        s = '  <characters id="%s" otus="%s"%s xsi:type="nex:%s">%s' % (nid("cb"), oid, lab, xtype, nl)
+        s += meta(0.3, "    ")
+        s += "    <format>" + nl
+        sets = []         # [(states id, {symbol: state id})]
+        if kind == "standard-cells":
+            for k in range(rng.choice([1, 2, 2])):
+                sid = nid("S")
+                sym = {}
+                s += '      <states id="%s">%s' % (sid, nl)
+                basics = "012"[:rng.choice([2, 3])] if k == 0 else "01"
+                for ch in basics:
+                    sym[ch] = nid("s")
+                    s += '        <state id="%s" symbol="%s"/>%s' % (sym[ch], ch, nl)
+                if rng.random() < 0.7:
+                    sym["P"] = nid("s")
+                    s += '        <polymorphic_state_set id="%s" symbol="P">%s' % (sym["P"], nl)
+                    for ch in basics[:2]:
+                        s += '          <member state="%s"/>%s' % (sym[ch], nl)
+                    s += "        </polymorphic_state_set>" + nl
+                if rng.random() < 0.7:
+                    sym["?"] = nid("s")
+                    s += '        <uncertain_state_set id="%s" symbol="?">%s' % (sym["?"], nl)
+                    for ch in basics:
+                        s += '          <member state="%s"/>%s' % (sym[ch], nl)
+                    s += "        </uncertain_state_set>" + nl
+                s += "      </states>" + nl
+                sets.append((sid, sym))
+            if len(sets) > 1:
+                feats.add("two-state-sets")
+        elif kind.startswith("dna"):
+            sid = nid("S")
+            sym = {}
+            s += '      <states id="%s">%s' % (sid, nl)
+            for ch in "ACGT":
+                sym[ch] = nid("s")
+                s += '        <state id="%s" symbol="%s"/>%s' % (sym[ch], ch, nl)
+            for ch, mem in (("R", "AG"), ("N", "ACGT")):
+                sym[ch] = nid("s")
+                s += '        <uncertain_state_set id="%s" symbol="%s">%s' % (sym[ch], ch, nl)
+                for m in mem:
+                    s += '          <member state="%s"/>%s' % (sym[m], nl)
+                s += "        </uncertain_state_set>" + nl
+            s += "      </states>" + nl
+            sets.append((sid, sym))
+        cols = []
+        for j in range(nchar):
+            cid = nid("c")
+            which = sets[j % len(sets)] if sets else None
+            a = ' id="%s"' % cid
+            if which is not None and (kind == "standard-cells" or rng.random() < 0.7):
+                a += ' states="%s"' % which[0]
+            m = meta(0.15, "        ")
+            s += ('      <char%s>%s%s      </char>%s' % (a, nl, m, nl)) if m else ('      <char%s/>%s' % (a, nl))
+            cols.append((cid, which))
+        s += "    </format>" + nl + "    <matrix>" + nl
+        for tid in members:
+            s += '      <row id="%s" otu="%s">%s' % (nid("r"), tid, nl)
+            s += meta(0.15, "        ")
+            if kind == "continuous-seqs":
+                s += "        <seq>%s</seq>%s" % (" ".join(rng.choice(["0.5", "1e-3", "-1", "2", "4.25"]) for _ in cols), nl)
+            elif kind == "dna-seqs":
+                s += "        <seq>%s</seq>%s" % ("".join(rng.choice("ACGTACGTRN") for _ in cols), nl)
+            else:
+                cells = []
+                for cid, which in cols:
+                    if kind == "continuous-cells":
+                        st = rng.choice(["0.5", "1e-3", "-1", "2", "4.25"])
+                    else:
+                        st = which[1][rng.choice(sorted(which[1]))]
+                    cells.append('        <cell char="%s" state="%s"/>%s' % (cid, st, nl))
+                if hostile and rng.random() < 0.3:
+                    rng.shuffle(cells)
+                    feats.add("cells-shuffled")
+                s += "".join(cells)
+            s += "      </row>" + nl
+        s += "    </matrix>" + nl + "  </characters>" + nl
+        matrices.append("standard" if kind.startswith("standard") else "dna" if kind.startswith("dna") else "continuous")
+        return s
+    blocks = []
+
+    def trees():
+        oid, members = rng.choice(otus)
+        s = '  <trees id="%s" otus="%s">%s' % (nid("trees"), oid, nl)
+        n_trees = rng.choice([1, 2])
+        for t in range(n_trees):
+            k = rng.randint(1, len(members))
+            spec = gen.random_spec(rng, k, p_poly=0.25, names=rng.sample(members, k))
+            s += '    <tree id="%s" label="t%d" xsi:type="nex:FloatTree">%s' % (nid("tree"), t, nl)
+            nodes, edges = [], []
+
+            def walk(n, parent):
+                me = nid("n")
+                nodes.append('      <node id="%s"%s/>%s' % (me, ' otu="%s"' % n[0] if not n[3] else "", nl))
+                if parent is not None:
+                    edges.append('      <edge id="%s" source="%s" target="%s" length="%s"/>%s'
+                                 % (nid("e"), parent, me, rng.choice(["0.5", "1.25", "3"]), nl))
+                for c in n[3]:
+                    walk(c, me)
+            walk(spec, None)
+            s += "".join(nodes) + "".join(edges) + "    </tree>" + nl
+        s += "  </trees>" + nl
+        blocks.append(n_trees)
+        return s
+    plan = ["chars"] * rng.choice([1, 1, 2]) + ["trees"] * rng.choice([0, 1, 1, 2])
+    if hostile:
+        rng.shuffle(plan)
+    for what in plan:
+        body.append(characters() if what == "chars" else trees())
+    out.extend(body)
+    out.append("</nex:nexml>" + nl)
+    return {"schema": "nexml", "text": "".join(out), "blocks": blocks, "features": sorted(feats), "matrices": matrices}
+
+
 # ----------------------------------------------------------------------------------------
 # canonical records
 def ann_record(a, depth=0):
@@ -642,7 +883,7 @@ def comments(obj):
 
 
 CLAUSES = ("shape", "taxon-labels", "node-labels", "lengths", "rooting", "weight", "tree-label", "comments",
-           "annotations", "node-comments", "node-annotations", "edge-labels", "edge-annotations")
+           "annotations", "node-comments", "node-annotations", "edge-labels", "edge-annotations", "edge-numbers")
 
 
 def tree_record(tree):
@@ -665,6 +906,7 @@ def tree_record(tree):
         "node-annotations": tuple(anns(nd) for nd in nodes),
         "edge-labels": tuple(getattr(nd._edge, "_label", None) if nd._edge is not None else None for nd in nodes),
         "edge-annotations": tuple(anns(nd._edge) if nd._edge is not None else () for nd in nodes),
+        "edge-numbers": tuple(getattr(nd._edge, "edge_number", None) if nd._edge is not None else None for nd in nodes),
         "_taxa": [getattr(nd, "taxon", None) for nd in nodes],
         "_ns": tree.taxon_namespace,
         "_spec": spec,
@@ -693,13 +935,26 @@ def describe(rec, clause):
 
 def matrix_record(cm):
     rows = []
+    alphabets = list(getattr(cm, "state_alphabets", None) or [])
+
+    def alphabet_no(ct):
+        """which of the matrix's state alphabets a column (character type) uses: position by identity"""
+        if ct is None:
+            return None
+        sa = getattr(ct, "_state_alphabet", None)
+        for k, x in enumerate(alphabets):
+            if x is sa:
+                return (k, getattr(ct, "label", None))
+        return ("none" if sa is None else "foreign", getattr(ct, "label", None))
     for tx in cm:
         seq = cm[tx]
         if cm.data_type == "continuous":
             vals = tuple(repr(v) for v in seq.values())
         else:
             vals = tuple((s.symbol, s.state_denomination, tuple(sorted(s.fundamental_symbols))) for s in seq.values())
-        rows.append((tx.label, vals, comments(seq), anns(seq), tx))
+        coltypes = tuple(alphabet_no(ct) for ct in getattr(seq, "_character_types", ()))
+        cellanns = tuple((tuple(sorted(ann_record(a) for a in x)) if x else ()) for x in getattr(seq, "_character_annotations", ()))
+        rows.append((tx.label, vals, comments(seq), anns(seq), tx, coltypes, cellanns))
     # iteration follows the ORDER OF THE NAMESPACE (which legitimately depends on what else a route parsed before the
     # matrix); the matrix itself is a mapping taxon -> sequence, so rows are compared sorted by label
     rows.sort(key=lambda r: (str(r[0]), repr(r[1])))
@@ -711,12 +966,14 @@ def matrix_record(cm):
             "row-taxa": tuple(r[0] for r in rows), "cells": tuple(r[1] for r in rows),
             "row-comments": tuple(r[2] for r in rows), "row-annotations": tuple(r[3] for r in rows),
             "character-subsets": subsets, "state-alphabets": alph,
+            "column-alphabets": tuple(r[5] for r in rows), "cell-annotations": tuple(r[6] for r in rows),
+            "character-types": tuple((alphabet_no(ct), anns(ct)) for ct in (getattr(cm, "character_types", None) or ())),
             "comments": comments(cm), "annotations": anns(cm),
             "_taxa": [r[4] for r in rows], "_ns": cm.taxon_namespace}
 
 
 MATRIX_CLAUSES = ("class", "data-type", "matrix-label", "row-taxa", "cells", "state-alphabets", "character-subsets",
-                  "row-comments", "row-annotations", "comments", "annotations")
+                  "column-alphabets", "character-types", "cell-annotations", "row-comments", "row-annotations", "comments", "annotations")
 
 
 def matrix_difference(a, b):
